@@ -317,6 +317,13 @@ def run(chk: Check, tier: str):
                 machinery_failure(f"MC_Manager: {res.violated} violated by the specification itself\n{res.out[-2000:]}")
             tlc.require_ok(res, "MC_Manager")
             chk.add_tlc(f"MC_Manager:{plumb}:cons={cons}", res, "all call histories within the bounds, all completion orders")
+    # ---- unbounded companion of RowsOwnKey for the by-index plumbing, proved by the TLA+ proof system
+    import tlaps
+
+    pr = tlaps.prove("ManagerLemma")
+    chk.cov["tlaps_ManagerLemma"] = {k: pr[k] for k in ("available", "proved", "refuted", "obligations", "wall_s")}
+    if pr["refuted"]:
+        machinery_failure("tlapm rejects an obligation of spec/ManagerLemma.tla:\n" + pr["out"])
     # ---- histories on real managers
     n_rand = 240 if tier == "quick" else 2400
     scen = []
